@@ -401,7 +401,7 @@ SIMPLER = {  # per config key: values in order of preference (simplest first); t
 LAYOUT_RANK = {"pylist": 0, "exact": 1, "otherdtype": 2, "view": 3, "noncontig": 4}
 
 
-def shrink(case, kind, driver, need_oracle=False, max_evals=60):
+def shrink(case, kind, driver, need_oracle=False, max_evals=40):
     """greedy simplification keeping the same finding kind: innocuous layouts, empty state, smallest batch, default config.
     Every step moves strictly towards the front of a preference list, so it terminates."""
     evals = [0]
@@ -645,7 +645,7 @@ def check(rep, tier, seed, driver):
     from common import CORPUS
     rng = random.Random(seed)
     t0 = time.time()
-    budget = 55 if tier == "quick" else 420
+    budget = 40 if tier == "quick" else 400
     n_random = 500 if tier == "quick" else 8000
     n_read = 150 if tier == "quick" else 2500
     rep.rule = ("cases = (public entry point, object kind/dtype/extra fields/state, one of 5 caller layout classes per array argument "
